@@ -10,6 +10,10 @@
      F                                 a statement that raises a run-time error
      X <hex text>                      expression statement (the value is dropped)
      T <hex name> <arg>                declaration  T name = <arg>;
+     O [<hex text>:<hex key> ...]      enter a scope (block, if / else body, loop iteration, switch case, match arm) in
+                                       which each text means what the key means in the enclosing environment
+     C                                 leave the scope (its deferred statements run, last registered first)
+     D <0|1> <arg> ...                 defer print / println
      RET <arg>                         return expression (absent: no value)
      ENDCALL
    <comp> ::= VAL I <decimal> | VAL S [<hex>] | VAL F <0|1> <m> <e> (the double (-1)^neg * m * 2^e) | <call>
@@ -20,8 +24,9 @@
    Output per case: "OK <hex of stdout> <1 if the run ended in an error else 0> ,<hex>,<hex>..."
    (the last field: what each statement of main wrote, up to and including the failing one; "!" = outside the model)
    or "ERR parse" (some literal does not split: nothing runs) / "ERR unsupported" / "ERR unbound".
-   For a case without calls the result is cross-checked against the effect-free model (run_program): "ERR lift"
-   would mean the two extracted functions disagree (excluded by theorem nested_model_conservative).
+   For a case without calls the result is cross-checked against the effect-free model (run_program), for a case
+   without scope tokens against the model of Nested.v (run_main): "ERR lift" would mean the extracted functions
+   disagree (excluded by theorems nested_model_conservative and contexts_model_conservative).
    Sub-command "split": one hex literal per line -> "T<hex>" / "X<hex>[:<hex>]" / "D" tokens, or "ERR parse";
    prefixed by "1 " / "0 " = the lexer's interpolation flag. *)
 open C16_model
@@ -67,7 +72,12 @@ let rec next_words () =
     | w -> w
 
 (* reads the lines of a call after its CALL line, up to ENDCALL *)
-let rec read_call ?(stop = "ENDCALL") () : comp =
+let parse_alias w =
+  match String.index_opt w ':' with
+  | Some i -> (unhex (String.sub w 0 i), unhex (String.sub w (i + 1) (String.length w - i - 1)))
+  | None -> failwith ("bad alias " ^ w)
+
+let rec read_call ?(stop = "ENDCALL") () : ccomp =
   let ps = ref [] and ls = ref [] and body = ref [] and ret = ref None in
   let fin = ref false in
   while not !fin do
@@ -75,65 +85,87 @@ let rec read_call ?(stop = "ENDCALL") () : comp =
      | [w] when w = stop -> fin := true
      | ["A"; n] -> let c = read_comp () in ps := (unhex n, c) :: !ps
      | ["L"; n] -> let c = read_comp () in ls := (unhex n, c) :: !ls
-     | ["E"; n; "I"; v] -> ls := (unhex n, CVal (VInt (z_of_string v))) :: !ls
-     | ["E"; n; "S"; v] -> ls := (unhex n, CVal (VStr (unhex v))) :: !ls
-     | ["E"; n; "S"] -> ls := (unhex n, CVal (VStr [])) :: !ls
-     | "P" :: nl :: args -> body := XPrint (nl = "1", List.map parse_arg args) :: !body
-     | ["F"] -> body := XFail :: !body
-     | ["X"; n] -> body := XEval (unhex n) :: !body
-     | ["T"; n; a] -> body := XLet (unhex n, parse_arg a) :: !body
+     | ["E"; n; "I"; v] -> ls := (unhex n, KVal (VInt (z_of_string v))) :: !ls
+     | ["E"; n; "S"; v] -> ls := (unhex n, KVal (VStr (unhex v))) :: !ls
+     | ["E"; n; "S"] -> ls := (unhex n, KVal (VStr [])) :: !ls
+     | "P" :: nl :: args -> body := CBase (XPrint (nl = "1", List.map parse_arg args)) :: !body
+     | ["F"] -> body := CBase XFail :: !body
+     | ["X"; n] -> body := CBase (XEval (unhex n)) :: !body
+     | ["T"; n; a] -> body := CBase (XLet (unhex n, parse_arg a)) :: !body
+     | "O" :: al -> body := COpen (List.map parse_alias al) :: !body
+     | ["C"] -> body := CClose :: !body
+     | "D" :: nl :: args -> body := CDefer (XPrint (nl = "1", List.map parse_arg args)) :: !body
      | ["RET"; a] -> ret := Some (parse_arg a)
      | w -> failwith ("bad line in call: " ^ String.concat " " w))
   done;
-  CCall (List.rev !ps, List.rev !ls, List.rev !body, !ret)
+  KCall (List.rev !ps, List.rev !ls, List.rev !body, !ret)
 
-and read_comp () : comp =
+and read_comp () : ccomp =
   match next_words () with
-  | ["VAL"; "I"; v] -> CVal (VInt (z_of_string v))
-  | ["VAL"; "S"; v] -> CVal (VStr (unhex v))
-  | ["VAL"; "S"] -> CVal (VStr [])
+  | ["VAL"; "I"; v] -> KVal (VInt (z_of_string v))
+  | ["VAL"; "S"; v] -> KVal (VStr (unhex v))
+  | ["VAL"; "S"] -> KVal (VStr [])
   | ["VAL"; "F"; ng; m; e] ->
       let mz = Int64.of_string m in
-      CVal (VFlt (ng = "1", (if Int64.equal mz 0L then N0 else Npos (pos_of_u64 mz)), z_of_string e))
+      KVal (VFlt (ng = "1", (if Int64.equal mz 0L then N0 else Npos (pos_of_u64 mz)), z_of_string e))
   | ["CALL"] -> read_call ()
   | w -> failwith ("bad comp: " ^ String.concat " " w)
 
-(* the effect-free image of a case, if it has one (no calls, no X/T statements) *)
-let pure_image (c : comp) : (env * stmt list) option =
+(* the call instance in the vocabulary of Nested.v, if it has no scope tokens *)
+let rec unembed (c : ccomp) : comp option =
   match c with
-  | CCall ([], ls, body, None) ->
+  | KVal v -> Some (CVal v)
+  | KCall (ps, ls, body, r) ->
       (try
-        let e = List.map (fun (k, v) -> match v with CVal x -> (k, x) | _ -> raise Exit) ls in
+        let sub l = List.map (fun (k, c') -> match unembed c' with Some x -> (k, x) | None -> raise Exit) l in
+        let st = function CBase x -> x | _ -> raise Exit in
+        Some (CCall (sub ps, sub ls, List.map st body, r))
+      with Exit -> None)
+
+(* the effect-free image of a case, if it has one (no calls, no X/T statements) *)
+let pure_image (c : ccomp) : (env * stmt list) option =
+  match c with
+  | KCall ([], ls, body, None) ->
+      (try
+        let e = List.map (fun (k, v) -> match v with KVal x -> (k, x) | _ -> raise Exit) ls in
         let arg = function XQuoted s -> AQuoted s | XInt z -> AInt z | XStr s -> AStr s | XRef _ -> raise Exit in
-        let st = function XPrint (nl, a) -> SPrint (nl, List.map arg a) | XFail -> SFail | _ -> raise Exit in
+        let st = function CBase (XPrint (nl, a)) -> SPrint (nl, List.map arg a) | CBase XFail -> SFail | _ -> raise Exit in
         Some (e, List.map st body)
       with Exit -> None)
   | _ -> None
 
-let report (c : comp) =
-  match run_main c with
+let report (c : ccomp) =
+  match run_main_c c with
   | Inl (o, failed) ->
-      (* what each statement of main wrote, for the harness' own oracle *)
+      (* what each statement of main wrote (a statement that opens scopes: up to the token that closes the
+         outermost one), for the harness' own oracle *)
       let per =
         match c with
-        | CCall (_, ls, body, _) ->
-            let e0 = List.map (fun (k, c') -> (k, run_comp c')) ls in
-            let rec go e = function
-              | [] -> []
+        | KCall (_, ls, body, _) ->
+            let e0 = List.map (fun (k, c') -> (k, run_ccomp c')) ls in
+            let depth_after d = function COpen _ -> d + 1 | CClose -> d - 1 | _ -> d in
+            let rec go st d acc = function
+              | [] -> if acc = [] then [] else [hex acc]
               | s :: r ->
-                  (match stmt_m e s with
-                   | Inl (side, Some e') -> hex side :: go e' r
-                   | Inl (side, None) -> [hex side]
+                  (match step_c st s with
+                   | Inl (side, Some st') ->
+                       let d' = depth_after d s in
+                       if d' = 0 then hex (acc @ side) :: go st' 0 [] r else go st' d' (acc @ side) r
+                   | Inl (side, None) -> [hex (acc @ side)]
                    | Inr _ -> ["!"]) in
-            go e0 body
-        | CVal _ -> [] in
+            go ((e0, []), []) 0 [] body
+        | KVal _ -> [] in
       let ok =
-        match pure_image c with
-        | None -> true
-        | Some (e, p) ->
-            (match run_program e p with
-             | (Inl o', failed') -> o' = o && failed' = failed
-             | (Inr _, _) -> false) in
+        (match pure_image c with
+         | None -> true
+         | Some (e, p) ->
+             (match run_program e p with
+              | (Inl o', failed') -> o' = o && failed' = failed
+              | (Inr _, _) -> false))
+        && (if List.compare_length_with o 60000 > 0 then true       (* megabytes of output: once is enough *)
+            else match unembed c with
+            | None -> true
+            | Some c0 -> (match run_main c0 with Inl (o', failed') -> o' = o && failed' = failed | Inr _ -> false)) in
       if ok then Printf.printf "OK %s %d %s\n" (hex o) (if failed then 1 else 0) (String.concat "," ("" :: per))
       else print_endline "ERR lift"
   | Inr EParse -> print_endline "ERR parse"
